@@ -354,3 +354,16 @@ class IsoLostBlockScriptClf(object):
         require(self.n == 4, 'no further block after the response')
         require(bytes(data) == second, 'the retransmitted block is the same second I-block')
         return bytearray([0x02 | (1 - self.pni)]) + self.payload
+
+
+class LlcEvModel(object):
+    """the LLC as _llcp_connect uses it, logging activation attempts and the link loop (C18)"""
+    def __init__(self, clf):
+        self.clf = clf
+
+    def activate(self, mac, **options):
+        EVENTS.append('activate')
+        return nondet_bool()
+
+    def run(self, terminate=None):
+        EVENTS.append('run')
